@@ -145,9 +145,10 @@ type leafCtx struct {
 	madeHere   map[string]bool   // byte buffers created by make in this function (capacity = length)
 
 	// eighth generation (leaf8.go)
-	logVars  map[string]bool // parameters of type *slog.Logger (dropped)
-	recvName string          // the receiver's name ("" = a plain function)
-	leanSelf string          // Lean name of the definition being translated
+	logVars      map[string]bool // parameters of type *slog.Logger (dropped)
+	recvName     string          // the receiver's name ("" = a plain function)
+	leanSelf     string          // Lean name of the definition being translated
+	needPrelude3 bool            // the definition uses Model/GoPrelude3.lean
 }
 
 func (c *leafCtx) fail(format string, a ...any) {
